@@ -66,6 +66,8 @@ class GetService(DPWSPortTypeBase):
                     for handle in requested_handles:
                         state_containers.extend(self._mdib.states.descriptor_handle.get(handle, []))
 
+                # each state at most once (same handle twice, or a descriptor handle together with one of its states)
+                state_containers = list({id(st): st for st in state_containers}.values())
                 self._logger.debug('_on_get_md_state requested Handles:{} found {} states', requested_handles,
                                    len(state_containers))
             # read version inside the lock, it must match the collected states
